@@ -3,10 +3,10 @@ import OllamaVerif.Model.Lockset
 namespace OllamaVerif.Generated.C15
 open OllamaVerif.Lockset
 
-def classNames : List String := ["Scheduler.expiredCh", "Scheduler.finishedReqCh", "Scheduler.getCpuFn", "Scheduler.getGpuFn", "Scheduler.loadFn", "Scheduler.loaded", "Scheduler.newServerFn", "Scheduler.pendingReqCh", "Scheduler.reschedDelay", "Scheduler.unloadedCh", "Server.addr", "Server.sched", "blobDownload.CancelFunc", "blobDownload.Completed", "blobDownload.Digest", "blobDownload.Name", "blobDownload.Parts", "blobDownload.Total", "blobDownload.done", "blobDownload.err", "blobDownload.references", "blobUpload.CancelFunc", "blobUpload.Completed", "blobUpload.Layer", "blobUpload.Parts", "blobUpload.Total", "blobUpload.done", "blobUpload.err", "blobUpload.file", "blobUpload.nextURL", "blobUpload.references", "global.blobDownloadManager", "global.blobUploadManager", "global.intermediateBlobs", "runnerRef.Options", "runnerRef.estimatedTotal", "runnerRef.estimatedVRAM", "runnerRef.expireTimer", "runnerRef.expiresAt", "runnerRef.gpus", "runnerRef.llama", "runnerRef.loading", "runnerRef.model", "runnerRef.modelPath", "runnerRef.numParallel", "runnerRef.refCount", "runnerRef.sessionDuration"]
-def lockNames : List String := ["Scheduler.loadedMu", "runnerRef.refMu"]
+def classNames : List String := ["Scheduler.expiredCh", "Scheduler.finishedReqCh", "Scheduler.getCpuFn", "Scheduler.getGpuFn", "Scheduler.loadFn", "Scheduler.loaded", "Scheduler.newServerFn", "Scheduler.pendingReqCh", "Scheduler.reschedDelay", "Scheduler.unloadedCh", "Server.addr", "Server.sched", "blobDownload.CancelFunc", "blobDownload.Completed", "blobDownload.Digest", "blobDownload.Name", "blobDownload.Parts", "blobDownload.Total", "blobDownload.done", "blobDownload.err", "blobDownload.references", "blobDownloadPart.Completed", "blobDownloadPart.N", "blobDownloadPart.Offset", "blobDownloadPart.Size", "blobDownloadPart.blobDownload", "blobDownloadPart.lastUpdated", "blobUpload.CancelFunc", "blobUpload.Completed", "blobUpload.Layer", "blobUpload.Parts", "blobUpload.Total", "blobUpload.done", "blobUpload.err", "blobUpload.file", "blobUpload.nextURL", "blobUpload.references", "blobUploadPart.Hash", "blobUploadPart.N", "blobUploadPart.Offset", "blobUploadPart.Size", "global.blobDownloadManager", "global.blobUploadManager", "global.intermediateBlobs", "runnerRef.Options", "runnerRef.estimatedTotal", "runnerRef.estimatedVRAM", "runnerRef.expireTimer", "runnerRef.expiresAt", "runnerRef.gpus", "runnerRef.llama", "runnerRef.loading", "runnerRef.model", "runnerRef.modelPath", "runnerRef.numParallel", "runnerRef.refCount", "runnerRef.sessionDuration"]
+def lockNames : List String := ["Scheduler.loadedMu", "blobDownloadPart.lastUpdatedMu", "runnerRef.refMu"]
 def threadNames : List String := ["Scheduler.Run$1", "Scheduler.Run$2", "Scheduler.load$1", "Scheduler.load$1$1", "Scheduler.processCompleted$1", "Scheduler.processCompleted$2", "Scheduler.processPending$1", "Serve$2", "Server.CreateHandler$1", "Server.PullHandler$1", "Server.PushHandler$1", "api", "blobDownload.downloadChunk$1", "blobDownload.downloadChunk$2", "blobDownload.run$2", "blobUpload.Run$1", "go:downloadBlob:download.Run", "go:uploadBlob:upload.Run", "main", "runnerRef.waitForVRAMRecovery$1"]
-def siteNames : List String := ["InitScheduler:70", "Scheduler.processPending:295", "Scheduler.processCompleted:342", "Scheduler.expireRunner:844", "Scheduler.processCompleted$1:353", "Scheduler.processCompleted$2:376", "Scheduler.load$1:480", "InitScheduler:69", "Scheduler.processPending:153", "Scheduler.processCompleted:325", "Scheduler.load$1$1:488", "InitScheduler:75", "Scheduler.processPending:167", "InitScheduler:74", "Scheduler.processPending:169", "InitScheduler:78", "Scheduler.processPending:217", "Server.PsHandler:1433", "InitScheduler:72", "Scheduler.processPending:145", "Scheduler.processCompleted:327", "Scheduler.processCompleted:391", "Scheduler.load:469", "Scheduler.load:470", "Scheduler.updateFreeSpace:501", "Scheduler.filterGPUsWithoutLoadingModels:541", "Scheduler.findRunnerToUnload:791", "Scheduler.findRunnerToUnload:792", "Scheduler.unloadAllRunners:823", "Scheduler.expireRunner:834", "InitScheduler:73", "Scheduler.load:441", "InitScheduler:68", "Scheduler.GetRunner:98", "Scheduler.processPending:123", "Scheduler.processPending$1:273", "InitScheduler:76", "Scheduler.processPending$1:272", "InitScheduler:71", "Scheduler.processPending:306", "Scheduler.processCompleted:399", "Server.GenerateRoutes:1206", "Serve:1308", "Server.scheduleRunner:109", "Server.GenerateHandler:167", "Serve:1329", "Serve:1355", "Server.PsHandler:1432", "Server.ChatHandler:1498", "blobDownload.release:432", "downloadBlob:498", "blobDownloadPart.Write:120", "blobDownload.Prepare:142", "blobDownload.Wait:450", "blobDownload.downloadChunk$1:346", "blobDownload.Prepare:178", "blobDownload.run:216", "blobDownload.Wait:447", "blobDownload.run$2:295", "blobDownload.downloadChunk$2:374", "blobDownloadPart.Name:106", "blobDownload.Prepare:128", "blobDownload.run:218", "blobDownload.run:322", "blobDownload.Prepare:143", "blobDownload.run:275", "blobDownload.newPart:391", "blobDownload.newPart:396", "blobDownload.Prepare:141", "blobDownload.Prepare:155", "blobDownload.run:225", "blobDownload.Wait:449", "blobDownload.Prepare:133", "blobDownload.Run:185", "blobDownload.Wait:443", "blobDownload.Run:186", "blobDownload.Wait:444", "blobDownload.acquire:427", "blobDownload.release:431", "blobUpload.release:312", "uploadBlob:390", "blobUpload.Prepare:87", "blobUpload.Wait:332", "progressWriter.Write:357", "progressWriter.Rollback:362", "blobUpload.Prepare:54", "blobUpload.Run:128", "blobUpload.Run:188", "blobUpload.uploadPart:268", "blobUpload.Wait:329", "blobUpload.Run$1:161", "blobUpload.Prepare:107", "blobUpload.Run:145", "blobUpload.Prepare:82", "blobUpload.Wait:331", "blobUpload.Prepare:88", "blobUpload.Run:212", "blobUpload.Wait:335", "blobUpload.Run:132", "blobUpload.Run:175", "blobUpload.Wait:336", "blobUpload.Run:136", "blobUpload.Run:141", "blobUpload.uploadPart:225", "blobUpload.Prepare:120", "blobUpload.Prepare:121", "blobUpload.Run:149", "blobUpload.uploadPart:251", "blobUpload.acquire:307", "blobUpload.release:311", "Server.CreateBlobHandler:1038", "Server.CreateBlobHandler:1047", "Scheduler.load:457", "runnerRef.unload:591", "runnerRef.needsReload:605", "runnerRef.needsReload:610", "Server.PsHandler:1446", "Scheduler.load:461", "Server.PsHandler:1447", "Scheduler.load:460", "runnerRef.waitForVRAMRecovery$1:679", "Scheduler.processPending:289", "Scheduler.processPending:290", "Scheduler.processPending:291", "Scheduler.processCompleted:338", "Scheduler.processCompleted:339", "Scheduler.processCompleted:340", "Scheduler.processCompleted:345", "LlmRequest.useLoadedRunner:417", "LlmRequest.useLoadedRunner:418", "LlmRequest.useLoadedRunner:419", "runnerRef.unload:582", "runnerRef.unload:583", "runnerRef.unload:584", "Scheduler.expireRunner:838", "Scheduler.expireRunner:839", "Scheduler.expireRunner:840", "Scheduler.processCompleted$1:349", "Scheduler.processCompleted$1:350", "Scheduler.processCompleted$1:351", "Server.PsHandler:1450", "Scheduler.processCompleted:355", "Scheduler.processCompleted:359", "Scheduler.expireRunner:837", "Scheduler.load:459", "Scheduler.filterGPUsWithoutLoadingModels:543", "runnerRef.unload:592", "runnerRef.waitForVRAMRecovery:645", "Server.scheduleRunner:117", "LlmRequest.useLoadedRunner:411", "Scheduler.load:456", "Scheduler.updateFreeSpace:503", "Scheduler.updateFreeSpace:505", "runnerRef.unload:586", "runnerRef.unload:587", "runnerRef.unload:590", "runnerRef.needsReload:625", "Scheduler.unloadAllRunners:824", "Scheduler.unloadAllRunners:826", "Scheduler.load:462", "Scheduler.filterGPUsWithoutLoadingModels:542", "runnerRef.needsReload:601", "Scheduler.load$1:484", "Server.PsHandler:1434", "Scheduler.load:454", "runnerRef.unload:589", "runnerRef.needsReload:622", "Scheduler.processPending:288", "Scheduler.processPending:301", "Scheduler.processCompleted:337", "Scheduler.processCompleted:357", "Scheduler.processCompleted:365", "Scheduler.processCompleted:371", "Scheduler.load:455", "ByDurationAndName.Less:701", "Scheduler.processCompleted$1:346", "Scheduler.load$1:479", "runnerRef.waitForVRAMRecovery$1:667", "Scheduler.load:465", "runnerRef.needsReload:618", "Scheduler.processCompleted:334", "Scheduler.processCompleted:335", "Scheduler.processCompleted:370", "LlmRequest.useLoadedRunner:416", "Scheduler.load:463", "Scheduler.findRunnerToUnload:808", "Scheduler.expireRunner:843", "Scheduler.load$1:477", "Server.PsHandler:1457", "Scheduler.processPending:293", "Scheduler.processCompleted:336", "LlmRequest.useLoadedRunner:422", "Scheduler.load:458", "ByDurationAndName.Less:695", "Scheduler.expireRunner:842"]
+def siteNames : List String := ["InitScheduler:70", "Scheduler.processPending:295", "Scheduler.processCompleted:342", "Scheduler.expireRunner:848", "Scheduler.processCompleted$1:353", "Scheduler.processCompleted$2:376", "Scheduler.load$1:480", "InitScheduler:69", "Scheduler.processPending:153", "Scheduler.processCompleted:325", "Scheduler.load$1$1:488", "InitScheduler:75", "Scheduler.processPending:167", "InitScheduler:74", "Scheduler.processPending:169", "InitScheduler:78", "Scheduler.processPending:217", "Server.PsHandler:1433", "InitScheduler:72", "Scheduler.processPending:145", "Scheduler.processCompleted:327", "Scheduler.processCompleted:391", "Scheduler.load:469", "Scheduler.load:470", "Scheduler.updateFreeSpace:501", "Scheduler.filterGPUsWithoutLoadingModels:541", "Scheduler.findRunnerToUnload:795", "Scheduler.findRunnerToUnload:796", "Scheduler.unloadAllRunners:827", "Scheduler.expireRunner:838", "InitScheduler:73", "Scheduler.load:441", "InitScheduler:68", "Scheduler.GetRunner:98", "Scheduler.processPending:123", "Scheduler.processPending$1:273", "InitScheduler:76", "Scheduler.processPending$1:272", "InitScheduler:71", "Scheduler.processPending:306", "Scheduler.processCompleted:399", "Server.GenerateRoutes:1206", "Serve:1308", "Server.scheduleRunner:109", "Server.GenerateHandler:167", "Serve:1329", "Serve:1355", "Server.PsHandler:1432", "Server.ChatHandler:1498", "blobDownload.release:432", "downloadBlob:498", "blobDownloadPart.Write:120", "blobDownload.Prepare:142", "blobDownload.Wait:450", "blobDownload.downloadChunk$1:346", "blobDownload.Prepare:178", "blobDownload.run:216", "blobDownload.Wait:447", "blobDownload.run$2:295", "blobDownload.downloadChunk$2:374", "blobDownloadPart.Name:106", "blobDownload.Prepare:128", "blobDownload.run:218", "blobDownload.run:322", "blobDownload.Prepare:143", "blobDownload.run:275", "blobDownload.newPart:391", "blobDownload.newPart:396", "blobDownload.Prepare:141", "blobDownload.Prepare:155", "blobDownload.run:225", "blobDownload.Wait:449", "blobDownload.Prepare:133", "blobDownload.Run:185", "blobDownload.Wait:443", "blobDownload.Run:186", "blobDownload.Wait:444", "blobDownload.acquire:427", "blobDownload.release:431", "blobDownloadPart.MarshalJSON:80", "blobDownloadPart.UnmarshalJSON:94", "blobDownloadPart.StartsAt:111", "blobDownload.run:277", "blobDownload.downloadChunk$1:343", "blobDownload.downloadChunk$1:350", "blobDownload.downloadChunk$2:364", "blobDownloadPart.MarshalJSON:77", "blobDownloadPart.UnmarshalJSON:90", "blobDownloadPart.MarshalJSON:78", "blobDownloadPart.UnmarshalJSON:91", "blobDownloadPart.StopsAt:115", "blobDownloadPart.MarshalJSON:79", "blobDownloadPart.UnmarshalJSON:92", "blobDownload.readPart:412", "blobDownloadPart.Write:122", "blobDownload.downloadChunk$2:369", "blobDownload.downloadChunk$2:377", "blobUpload.release:320", "uploadBlob:398", "blobUpload.Prepare:87", "blobUpload.Wait:340", "progressWriter.Write:365", "progressWriter.Rollback:370", "blobUpload.Prepare:54", "blobUpload.Run:128", "blobUpload.Run:196", "blobUpload.uploadPart:276", "blobUpload.Wait:337", "blobUpload.Run$1:161", "blobUpload.Prepare:107", "blobUpload.Run:145", "blobUpload.Prepare:82", "blobUpload.Wait:339", "blobUpload.Prepare:88", "blobUpload.Run:220", "blobUpload.Wait:343", "blobUpload.Run:132", "blobUpload.Run:175", "blobUpload.Wait:344", "blobUpload.Run:136", "blobUpload.Run:141", "blobUpload.uploadPart:233", "blobUpload.Prepare:120", "blobUpload.Prepare:121", "blobUpload.Run:149", "blobUpload.uploadPart:259", "blobUpload.acquire:315", "blobUpload.release:319", "blobUpload.uploadPart:310", "blobUpload.uploadPart:230", "blobUpload.Prepare:112", "blobUpload.uploadPart:226", "Server.CreateBlobHandler:1038", "Server.CreateBlobHandler:1047", "Scheduler.load:457", "runnerRef.unload:591", "runnerRef.needsReload:605", "runnerRef.needsReload:610", "Server.PsHandler:1446", "Scheduler.load:461", "Server.PsHandler:1447", "Scheduler.load:460", "runnerRef.waitForVRAMRecovery$1:683", "Scheduler.processPending:289", "Scheduler.processPending:290", "Scheduler.processPending:291", "Scheduler.processCompleted:338", "Scheduler.processCompleted:339", "Scheduler.processCompleted:340", "Scheduler.processCompleted:345", "LlmRequest.useLoadedRunner:417", "LlmRequest.useLoadedRunner:418", "LlmRequest.useLoadedRunner:419", "runnerRef.unload:582", "runnerRef.unload:583", "runnerRef.unload:584", "Scheduler.expireRunner:842", "Scheduler.expireRunner:843", "Scheduler.expireRunner:844", "Scheduler.processCompleted$1:349", "Scheduler.processCompleted$1:350", "Scheduler.processCompleted$1:351", "Server.PsHandler:1450", "Scheduler.processCompleted:355", "Scheduler.processCompleted:359", "Scheduler.expireRunner:841", "Scheduler.load:459", "Scheduler.filterGPUsWithoutLoadingModels:543", "runnerRef.unload:592", "runnerRef.waitForVRAMRecovery:649", "Server.scheduleRunner:117", "LlmRequest.useLoadedRunner:411", "Scheduler.load:456", "Scheduler.updateFreeSpace:503", "Scheduler.updateFreeSpace:505", "runnerRef.unload:586", "runnerRef.unload:587", "runnerRef.unload:590", "runnerRef.needsReload:629", "Scheduler.unloadAllRunners:828", "Scheduler.unloadAllRunners:830", "Scheduler.load:462", "Scheduler.filterGPUsWithoutLoadingModels:542", "runnerRef.needsReload:601", "Scheduler.load$1:484", "Server.PsHandler:1434", "Scheduler.load:454", "runnerRef.unload:589", "runnerRef.needsReload:626", "Scheduler.processPending:288", "Scheduler.processPending:301", "Scheduler.processCompleted:337", "Scheduler.processCompleted:357", "Scheduler.processCompleted:365", "Scheduler.processCompleted:371", "Scheduler.load:455", "ByDurationAndName.Less:705", "Scheduler.processCompleted$1:346", "Scheduler.load$1:479", "runnerRef.waitForVRAMRecovery$1:671", "Scheduler.load:465", "runnerRef.needsReload:618", "Scheduler.processCompleted:334", "Scheduler.processCompleted:335", "Scheduler.processCompleted:370", "LlmRequest.useLoadedRunner:416", "Scheduler.load:463", "Scheduler.findRunnerToUnload:812", "Scheduler.expireRunner:847", "Scheduler.load$1:477", "Server.PsHandler:1457", "Scheduler.processPending:293", "Scheduler.processCompleted:336", "LlmRequest.useLoadedRunner:422", "Scheduler.load:458", "ByDurationAndName.Less:699", "Scheduler.expireRunner:846"]
 def hbNames : List String := ["-", "holder (C01: no unload while a request holds the runner)", "doneclose (write before close(done), read after <-done)"]
 
 private def mk (site cls : Nat) (kind : Kind) (locks : List LockRef) (thread : Nat) (single init racy atomic : Bool)
@@ -17,7 +17,7 @@ def accesses : List Access := [
   mk 0 0 .write [] 18 true true false false [10, 11] [] [] true false false,  -- 0 Scheduler.expiredCh InitScheduler:70 @main
   mk 1 0 .read [] 0 true false false false [] [13] [] true false false,  -- 1 Scheduler.expiredCh Scheduler.processPending:295 @Scheduler.Run$1
   mk 2 0 .read [] 1 true false false false [] [14] [] true false false,  -- 2 Scheduler.expiredCh Scheduler.processCompleted:342 @Scheduler.Run$2
-  mk 3 0 .read [⟨0, false⟩] 11 false false false false [] [11] [] true false false,  -- 3 Scheduler.expiredCh Scheduler.expireRunner:844 @api
+  mk 3 0 .read [⟨0, false⟩] 11 false false false false [] [11] [] true false false,  -- 3 Scheduler.expiredCh Scheduler.expireRunner:848 @api
   mk 4 0 .read [] 4 false false false false [] [14] [] true false false,  -- 4 Scheduler.expiredCh Scheduler.processCompleted$1:353 @Scheduler.processCompleted$1
   mk 5 0 .read [] 5 false false false false [] [14] [] true false false,  -- 5 Scheduler.expiredCh Scheduler.processCompleted$2:376 @Scheduler.processCompleted$2
   mk 6 0 .read [] 2 false false false false [] [13] [] true false false,  -- 6 Scheduler.expiredCh Scheduler.load$1:480 @Scheduler.load$1
@@ -40,10 +40,10 @@ def accesses : List Access := [
   mk 23 5 .mapRead [⟨0, false⟩] 0 true false false false [] [13] [] true false false,  -- 23 Scheduler.loaded Scheduler.load:470 @Scheduler.Run$1
   mk 24 5 .mapIter [⟨0, false⟩] 0 true false false false [] [13] [] true false false,  -- 24 Scheduler.loaded Scheduler.updateFreeSpace:501 @Scheduler.Run$1
   mk 25 5 .mapIter [⟨0, false⟩] 0 true false false false [] [13] [] true false false,  -- 25 Scheduler.loaded Scheduler.filterGPUsWithoutLoadingModels:541 @Scheduler.Run$1
-  mk 26 5 .mapRead [⟨0, false⟩] 0 true false false false [] [13] [] true false false,  -- 26 Scheduler.loaded Scheduler.findRunnerToUnload:791 @Scheduler.Run$1
-  mk 27 5 .mapIter [⟨0, false⟩] 0 true false false false [] [13] [] true false false,  -- 27 Scheduler.loaded Scheduler.findRunnerToUnload:792 @Scheduler.Run$1
-  mk 28 5 .mapIter [⟨0, false⟩] 7 true false false false [] [10] [] true false false,  -- 28 Scheduler.loaded Scheduler.unloadAllRunners:823 @Serve$2
-  mk 29 5 .mapRead [⟨0, false⟩] 11 false false false false [] [11] [] true false false,  -- 29 Scheduler.loaded Scheduler.expireRunner:834 @api
+  mk 26 5 .mapRead [⟨0, false⟩] 0 true false false false [] [13] [] true false false,  -- 26 Scheduler.loaded Scheduler.findRunnerToUnload:795 @Scheduler.Run$1
+  mk 27 5 .mapIter [⟨0, false⟩] 0 true false false false [] [13] [] true false false,  -- 27 Scheduler.loaded Scheduler.findRunnerToUnload:796 @Scheduler.Run$1
+  mk 28 5 .mapIter [⟨0, false⟩] 7 true false false false [] [10] [] true false false,  -- 28 Scheduler.loaded Scheduler.unloadAllRunners:827 @Serve$2
+  mk 29 5 .mapRead [⟨0, false⟩] 11 false false false false [] [11] [] true false false,  -- 29 Scheduler.loaded Scheduler.expireRunner:838 @api
   mk 30 6 .write [] 18 true true false false [10, 11] [] [] true false false,  -- 30 Scheduler.newServerFn InitScheduler:73 @main
   mk 31 6 .read [] 0 true false false false [] [13] [] true false false,  -- 31 Scheduler.newServerFn Scheduler.load:441 @Scheduler.Run$1
   mk 32 7 .write [] 18 true true false false [10, 11] [] [] true false false,  -- 32 Scheduler.pendingReqCh InitScheduler:68 @main
@@ -120,148 +120,204 @@ def accesses : List Access := [
   mk 77 20 .write [] 9 false false false true [] [11] [] true false false,  -- 103 blobDownload.references blobDownload.acquire:427 @Server.PullHandler$1
   mk 78 20 .write [] 8 false false false true [] [11] [] true false false,  -- 104 blobDownload.references blobDownload.release:431 @Server.CreateHandler$1
   mk 78 20 .write [] 9 false false false true [] [11] [] true false false,  -- 105 blobDownload.references blobDownload.release:431 @Server.PullHandler$1
-  mk 79 21 .read [] 10 false false false false [] [11] [] true false false,  -- 106 blobUpload.CancelFunc blobUpload.release:312 @Server.PushHandler$1
-  mk 80 21 .write [] 10 false true false false [22] [11] [] true false false,  -- 107 blobUpload.CancelFunc uploadBlob:390 @Server.PushHandler$1
-  mk 81 22 .write [] 10 false false false true [22] [11] [] true false false,  -- 108 blobUpload.Completed blobUpload.Prepare:87 @Server.PushHandler$1
-  mk 82 22 .read [] 10 false false false true [] [11] [] true false false,  -- 109 blobUpload.Completed blobUpload.Wait:332 @Server.PushHandler$1
-  mk 83 22 .write [] 11 false false false true [] [11] [] true false false,  -- 110 blobUpload.Completed progressWriter.Write:357 @api
-  mk 84 22 .write [] 15 false false false true [] [11, 21, 22] [] true false false,  -- 111 blobUpload.Completed progressWriter.Rollback:362 @blobUpload.Run$1
-  mk 85 23 .read [] 10 false false false false [22] [11] [] true false false,  -- 112 blobUpload.Layer blobUpload.Prepare:54 @Server.PushHandler$1
-  mk 86 23 .read [] 17 true false false false [21] [11, 22] [] true false false,  -- 113 blobUpload.Layer blobUpload.Run:128 @go:uploadBlob:upload.Run
-  mk 87 23 .read [] 17 true false false false [] [11, 22] [] true false false,  -- 114 blobUpload.Layer blobUpload.Run:188 @go:uploadBlob:upload.Run
-  mk 88 23 .read [] 15 false false false false [] [11, 21, 22] [] true false false,  -- 115 blobUpload.Layer blobUpload.uploadPart:268 @blobUpload.Run$1
-  mk 89 23 .read [] 10 false false false false [] [11] [] true false false,  -- 116 blobUpload.Layer blobUpload.Wait:329 @Server.PushHandler$1
-  mk 80 23 .write [] 10 false true false false [22] [11] [] true false false,  -- 117 blobUpload.Layer uploadBlob:390 @Server.PushHandler$1
-  mk 90 23 .read [] 15 false false false false [] [11, 21, 22] [] true false false,  -- 118 blobUpload.Layer blobUpload.Run$1:161 @blobUpload.Run$1
-  mk 91 24 .read [] 10 false false false false [22] [11] [] true false false,  -- 119 blobUpload.Parts blobUpload.Prepare:107 @Server.PushHandler$1
-  mk 91 24 .write [] 10 false false false false [22] [11] [] true false false,  -- 120 blobUpload.Parts blobUpload.Prepare:107 @Server.PushHandler$1
-  mk 92 24 .read [] 17 true false false false [] [11, 22] [] true false false,  -- 121 blobUpload.Parts blobUpload.Run:145 @go:uploadBlob:upload.Run
-  mk 93 25 .write [] 10 false false false false [22] [11] [] true false false,  -- 122 blobUpload.Total blobUpload.Prepare:82 @Server.PushHandler$1
-  mk 81 25 .read [] 10 false false false false [22] [11] [] true false false,  -- 123 blobUpload.Total blobUpload.Prepare:87 @Server.PushHandler$1
-  mk 94 25 .read [] 10 false false false false [] [11] [] true false false,  -- 124 blobUpload.Total blobUpload.Wait:331 @Server.PushHandler$1
-  mk 95 26 .write [] 10 false false false false [22] [11] [] true false false,  -- 125 blobUpload.done blobUpload.Prepare:88 @Server.PushHandler$1
-  mk 96 26 .write [] 17 true false false false [] [11, 22] [] true false false,  -- 126 blobUpload.done blobUpload.Run:212 @go:uploadBlob:upload.Run
-  mk 97 26 .read [] 10 false false false false [] [11] [] true false false,  -- 127 blobUpload.done blobUpload.Wait:335 @Server.PushHandler$1
-  mk 98 27 .write [] 17 true false false false [21] [11, 22] [] true false false,  -- 128 blobUpload.err blobUpload.Run:132 @go:uploadBlob:upload.Run
-  mk 99 27 .write [] 17 true false false false [] [11, 22] [] true false false,  -- 129 blobUpload.err blobUpload.Run:175 @go:uploadBlob:upload.Run
-  mk 97 27 .read [] 10 false false false false [] [11] [] false false false,  -- 130 blobUpload.err blobUpload.Wait:335 @Server.PushHandler$1
-  mk 100 27 .read [] 10 false false false false [] [11] [] true false false,  -- 131 blobUpload.err blobUpload.Wait:336 @Server.PushHandler$1
-  mk 101 28 .write [] 17 true false false false [21] [11, 22] [] true false false,  -- 132 blobUpload.file blobUpload.Run:136 @go:uploadBlob:upload.Run
-  mk 102 28 .read [] 17 true false false false [21] [11, 22] [] true false false,  -- 133 blobUpload.file blobUpload.Run:141 @go:uploadBlob:upload.Run
-  mk 103 28 .read [] 15 false false false false [] [11, 21, 22] [] true false false,  -- 134 blobUpload.file blobUpload.uploadPart:225 @blobUpload.Run$1
-  mk 104 29 .write [] 10 false false false false [22] [11] [] true false false,  -- 135 blobUpload.nextURL blobUpload.Prepare:120 @Server.PushHandler$1
-  mk 105 29 .read [] 10 false false false false [22] [11] [] true false false,  -- 136 blobUpload.nextURL blobUpload.Prepare:121 @Server.PushHandler$1
-  mk 106 29 .read [] 17 true false false false [] [11, 22] [] true false false,  -- 137 blobUpload.nextURL blobUpload.Run:149 @go:uploadBlob:upload.Run
-  mk 107 29 .read [] 15 false false false false [] [11, 21, 22] [] true false false,  -- 138 blobUpload.nextURL blobUpload.uploadPart:251 @blobUpload.Run$1
-  mk 108 30 .write [] 10 false false false true [] [11] [] true false false,  -- 139 blobUpload.references blobUpload.acquire:307 @Server.PushHandler$1
-  mk 109 30 .write [] 10 false false false true [] [11] [] true false false,  -- 140 blobUpload.references blobUpload.release:311 @Server.PushHandler$1
-  mk 56 31 .write [] 16 false false false true [] [11] [] true false false,  -- 141 global.blobDownloadManager blobDownload.run:216 @go:downloadBlob:download.Run
-  mk 50 31 .write [] 8 false false false true [] [11] [] true false false,  -- 142 global.blobDownloadManager downloadBlob:498 @Server.CreateHandler$1
-  mk 50 31 .write [] 9 false false false true [] [11] [] true false false,  -- 143 global.blobDownloadManager downloadBlob:498 @Server.PullHandler$1
-  mk 86 32 .write [] 17 false false false true [] [11] [] true false false,  -- 144 global.blobUploadManager blobUpload.Run:128 @go:uploadBlob:upload.Run
-  mk 80 32 .write [] 10 false false false true [] [11] [] true false false,  -- 145 global.blobUploadManager uploadBlob:390 @Server.PushHandler$1
-  mk 110 33 .mapRead [] 11 false false false false [] [11] [] true false false,  -- 146 global.intermediateBlobs Server.CreateBlobHandler:1038 @api
-  mk 111 33 .mapDelete [] 11 false false false false [] [11] [] true false false,  -- 147 global.intermediateBlobs Server.CreateBlobHandler:1047 @api
-  mk 112 34 .write [] 0 true true false false [] [13] [] true false false,  -- 148 runnerRef.Options Scheduler.load:457 @Scheduler.Run$1
-  mk 113 34 .write [⟨0, false⟩, ⟨1, true⟩] 1 true false false false [] [14] [1] true false false,  -- 149 runnerRef.Options runnerRef.unload:591 @Scheduler.Run$2
-  mk 114 34 .read [⟨1, true⟩] 0 true false false false [] [13] [] false false false,  -- 150 runnerRef.Options runnerRef.needsReload:605 @Scheduler.Run$1
-  mk 115 34 .read [⟨1, true⟩] 0 true false false false [] [13] [] true false true,  -- 151 runnerRef.Options runnerRef.needsReload:610 @Scheduler.Run$1
-  mk 116 35 .read [⟨0, false⟩] 11 false false false false [] [11] [] true true false,  -- 152 runnerRef.estimatedTotal Server.PsHandler:1446 @api
-  mk 117 35 .write [] 0 true true false false [] [13] [] true false false,  -- 153 runnerRef.estimatedTotal Scheduler.load:461 @Scheduler.Run$1
-  mk 118 36 .read [⟨0, false⟩] 11 false false false false [] [11] [] true true false,  -- 154 runnerRef.estimatedVRAM Server.PsHandler:1447 @api
-  mk 119 36 .write [] 0 true true false false [] [13] [] true false false,  -- 155 runnerRef.estimatedVRAM Scheduler.load:460 @Scheduler.Run$1
-  mk 120 36 .read [] 19 false false false false [] [14] [] true false false,  -- 156 runnerRef.estimatedVRAM runnerRef.waitForVRAMRecovery$1:679 @runnerRef.waitForVRAMRecovery$1
-  mk 121 37 .read [⟨1, true⟩] 0 true false false false [] [13] [] false false false,  -- 157 runnerRef.expireTimer Scheduler.processPending:289 @Scheduler.Run$1
-  mk 122 37 .read [⟨1, true⟩] 0 true false false false [] [13] [] true false true,  -- 158 runnerRef.expireTimer Scheduler.processPending:290 @Scheduler.Run$1
-  mk 123 37 .write [⟨1, true⟩] 0 true false false false [] [13] [] true false true,  -- 159 runnerRef.expireTimer Scheduler.processPending:291 @Scheduler.Run$1
-  mk 124 37 .read [⟨1, true⟩] 1 true false false false [] [14] [] false false false,  -- 160 runnerRef.expireTimer Scheduler.processCompleted:338 @Scheduler.Run$2
-  mk 125 37 .read [⟨1, true⟩] 1 true false false false [] [14] [] true false true,  -- 161 runnerRef.expireTimer Scheduler.processCompleted:339 @Scheduler.Run$2
-  mk 126 37 .write [⟨1, true⟩] 1 true false false false [] [14] [] true false true,  -- 162 runnerRef.expireTimer Scheduler.processCompleted:340 @Scheduler.Run$2
-  mk 127 37 .write [⟨1, true⟩] 1 true false false false [] [14] [] true false false,  -- 163 runnerRef.expireTimer Scheduler.processCompleted:345 @Scheduler.Run$2
-  mk 128 37 .read [⟨1, true⟩] 0 true false false false [] [13] [] false false true,  -- 164 runnerRef.expireTimer LlmRequest.useLoadedRunner:417 @Scheduler.Run$1
-  mk 129 37 .read [⟨1, true⟩] 0 true false false false [] [13] [] true false true,  -- 165 runnerRef.expireTimer LlmRequest.useLoadedRunner:418 @Scheduler.Run$1
-  mk 130 37 .write [⟨1, true⟩] 0 true false false false [] [13] [] true false true,  -- 166 runnerRef.expireTimer LlmRequest.useLoadedRunner:419 @Scheduler.Run$1
-  mk 131 37 .read [⟨0, false⟩, ⟨1, true⟩] 1 true false false false [] [14] [1] false false false,  -- 167 runnerRef.expireTimer runnerRef.unload:582 @Scheduler.Run$2
-  mk 132 37 .read [⟨0, false⟩, ⟨1, true⟩] 1 true false false false [] [14] [1] true false true,  -- 168 runnerRef.expireTimer runnerRef.unload:583 @Scheduler.Run$2
-  mk 133 37 .write [⟨0, false⟩, ⟨1, true⟩] 1 true false false false [] [14] [1] true false true,  -- 169 runnerRef.expireTimer runnerRef.unload:584 @Scheduler.Run$2
-  mk 134 37 .read [⟨0, false⟩, ⟨1, true⟩] 11 false false false false [] [11] [] false true false,  -- 170 runnerRef.expireTimer Scheduler.expireRunner:838 @api
-  mk 135 37 .read [⟨0, false⟩, ⟨1, true⟩] 11 false false false false [] [11] [] true true true,  -- 171 runnerRef.expireTimer Scheduler.expireRunner:839 @api
-  mk 136 37 .write [⟨0, false⟩, ⟨1, true⟩] 11 false false false false [] [11] [] true true true,  -- 172 runnerRef.expireTimer Scheduler.expireRunner:840 @api
-  mk 137 37 .read [⟨1, true⟩] 4 false false false false [] [14] [] false false false,  -- 173 runnerRef.expireTimer Scheduler.processCompleted$1:349 @Scheduler.processCompleted$1
-  mk 138 37 .read [⟨1, true⟩] 4 false false false false [] [14] [] true false true,  -- 174 runnerRef.expireTimer Scheduler.processCompleted$1:350 @Scheduler.processCompleted$1
-  mk 139 37 .write [⟨1, true⟩] 4 false false false false [] [14] [] true false true,  -- 175 runnerRef.expireTimer Scheduler.processCompleted$1:351 @Scheduler.processCompleted$1
-  mk 140 38 .read [⟨0, false⟩] 11 false false false false [] [11] [] true true false,  -- 176 runnerRef.expiresAt Server.PsHandler:1450 @api
-  mk 141 38 .write [⟨1, true⟩] 1 true false false false [] [14] [] true false false,  -- 177 runnerRef.expiresAt Scheduler.processCompleted:355 @Scheduler.Run$2
-  mk 142 38 .write [⟨1, true⟩] 1 true false false false [] [14] [] true false true,  -- 178 runnerRef.expiresAt Scheduler.processCompleted:359 @Scheduler.Run$2
-  mk 143 38 .write [⟨0, false⟩, ⟨1, true⟩] 11 false false false false [] [11] [] true true false,  -- 179 runnerRef.expiresAt Scheduler.expireRunner:837 @api
-  mk 144 39 .write [] 0 true true false false [] [13] [] true false false,  -- 180 runnerRef.gpus Scheduler.load:459 @Scheduler.Run$1
-  mk 145 39 .read [⟨0, false⟩] 0 true false false false [] [13] [] true true false,  -- 181 runnerRef.gpus Scheduler.filterGPUsWithoutLoadingModels:543 @Scheduler.Run$1
-  mk 146 39 .write [⟨0, false⟩, ⟨1, true⟩] 1 true false false false [] [14] [1] true false false,  -- 182 runnerRef.gpus runnerRef.unload:592 @Scheduler.Run$2
-  mk 147 39 .read [⟨0, false⟩, ⟨1, true⟩] 1 true false false false [] [14] [] true false false,  -- 183 runnerRef.gpus runnerRef.waitForVRAMRecovery:645 @Scheduler.Run$2
-  mk 148 40 .read [] 11 false false false false [] [11] [1] true false false,  -- 184 runnerRef.llama Server.scheduleRunner:117 @api
-  mk 149 40 .read [⟨1, true⟩] 0 true false false false [] [13] [] false false false,  -- 185 runnerRef.llama LlmRequest.useLoadedRunner:411 @Scheduler.Run$1
-  mk 150 40 .write [] 0 true true false false [] [13] [] true false false,  -- 186 runnerRef.llama Scheduler.load:456 @Scheduler.Run$1
-  mk 151 40 .read [⟨0, false⟩, ⟨1, true⟩] 0 true false false false [] [13] [] false true false,  -- 187 runnerRef.llama Scheduler.updateFreeSpace:503 @Scheduler.Run$1
-  mk 152 40 .read [⟨0, false⟩, ⟨1, true⟩] 0 true false false false [] [13] [] true true true,  -- 188 runnerRef.llama Scheduler.updateFreeSpace:505 @Scheduler.Run$1
-  mk 153 40 .read [⟨0, false⟩, ⟨1, true⟩] 1 true false false false [] [14] [1] false false false,  -- 189 runnerRef.llama runnerRef.unload:586 @Scheduler.Run$2
-  mk 154 40 .read [⟨0, false⟩, ⟨1, true⟩] 1 true false false false [] [14] [1] true false true,  -- 190 runnerRef.llama runnerRef.unload:587 @Scheduler.Run$2
-  mk 155 40 .write [⟨0, false⟩, ⟨1, true⟩] 1 true false false false [] [14] [1] true false false,  -- 191 runnerRef.llama runnerRef.unload:590 @Scheduler.Run$2
-  mk 156 40 .read [⟨1, true⟩] 0 true false false false [] [13] [] true false true,  -- 192 runnerRef.llama runnerRef.needsReload:625 @Scheduler.Run$1
-  mk 157 40 .read [⟨0, false⟩] 7 true false false false [] [10] [] false true false,  -- 193 runnerRef.llama Scheduler.unloadAllRunners:824 @Serve$2
-  mk 158 40 .read [⟨0, false⟩] 7 true false false false [] [10] [] true true false,  -- 194 runnerRef.llama Scheduler.unloadAllRunners:826 @Serve$2
-  mk 159 41 .write [] 0 true true false false [] [13] [] true false false,  -- 195 runnerRef.loading Scheduler.load:462 @Scheduler.Run$1
-  mk 160 41 .read [⟨0, false⟩] 0 true false false false [] [13] [] true true false,  -- 196 runnerRef.loading Scheduler.filterGPUsWithoutLoadingModels:542 @Scheduler.Run$1
-  mk 161 41 .read [⟨1, true⟩] 0 true false false false [] [13] [] true false false,  -- 197 runnerRef.loading runnerRef.needsReload:601 @Scheduler.Run$1
-  mk 162 41 .write [⟨1, true⟩] 2 false false false false [] [13] [] true false false,  -- 198 runnerRef.loading Scheduler.load$1:484 @Scheduler.load$1
-  mk 163 42 .read [⟨0, false⟩] 11 false false false false [] [11] [] true true false,  -- 199 runnerRef.model Server.PsHandler:1434 @api
-  mk 164 42 .write [] 0 true true false false [] [13] [] true false false,  -- 200 runnerRef.model Scheduler.load:454 @Scheduler.Run$1
-  mk 165 42 .write [⟨0, false⟩, ⟨1, true⟩] 1 true false false false [] [14] [1] true false false,  -- 201 runnerRef.model runnerRef.unload:589 @Scheduler.Run$2
-  mk 166 42 .read [⟨1, true⟩] 0 true false false false [] [13] [] true false true,  -- 202 runnerRef.model runnerRef.needsReload:622 @Scheduler.Run$1
-  mk 167 43 .read [⟨1, true⟩] 0 true false false false [] [13] [] true false false,  -- 203 runnerRef.modelPath Scheduler.processPending:288 @Scheduler.Run$1
-  mk 168 43 .read [] 0 true false false false [] [13] [] true false false,  -- 204 runnerRef.modelPath Scheduler.processPending:301 @Scheduler.Run$1
-  mk 169 43 .read [⟨1, true⟩] 1 true false false false [] [14] [] true false false,  -- 205 runnerRef.modelPath Scheduler.processCompleted:337 @Scheduler.Run$2
-  mk 170 43 .read [⟨1, true⟩] 1 true false false false [] [14] [] true false true,  -- 206 runnerRef.modelPath Scheduler.processCompleted:357 @Scheduler.Run$2
-  mk 171 43 .read [] 1 true false false false [] [14] [] true false false,  -- 207 runnerRef.modelPath Scheduler.processCompleted:365 @Scheduler.Run$2
-  mk 172 43 .read [⟨0, false⟩, ⟨1, true⟩] 1 true false false false [] [14] [] true false false,  -- 208 runnerRef.modelPath Scheduler.processCompleted:371 @Scheduler.Run$2
-  mk 173 43 .write [] 0 true true false false [] [13] [] true false false,  -- 209 runnerRef.modelPath Scheduler.load:455 @Scheduler.Run$1
-  mk 145 43 .read [⟨0, false⟩] 0 true false false false [] [13] [] true true false,  -- 210 runnerRef.modelPath Scheduler.filterGPUsWithoutLoadingModels:543 @Scheduler.Run$1
-  mk 174 43 .read [] 0 true false false false [] [13] [] true false false,  -- 211 runnerRef.modelPath ByDurationAndName.Less:701 @Scheduler.Run$1
-  mk 175 43 .read [] 4 false false false false [] [14] [] true false false,  -- 212 runnerRef.modelPath Scheduler.processCompleted$1:346 @Scheduler.processCompleted$1
-  mk 176 43 .read [⟨1, true⟩] 2 false false false false [] [13] [] true false false,  -- 213 runnerRef.modelPath Scheduler.load$1:479 @Scheduler.load$1
-  mk 177 43 .read [] 19 false false false false [] [14] [] true false false,  -- 214 runnerRef.modelPath runnerRef.waitForVRAMRecovery$1:667 @runnerRef.waitForVRAMRecovery$1
-  mk 178 44 .write [] 0 true true false false [] [13] [] true false false,  -- 215 runnerRef.numParallel Scheduler.load:465 @Scheduler.Run$1
-  mk 179 44 .read [⟨1, true⟩] 0 true false false false [] [13] [] true false true,  -- 216 runnerRef.numParallel runnerRef.needsReload:618 @Scheduler.Run$1
-  mk 167 45 .read [⟨1, true⟩] 0 true false false false [] [13] [] true false false,  -- 217 runnerRef.refCount Scheduler.processPending:288 @Scheduler.Run$1
-  mk 180 45 .write [⟨1, true⟩] 1 true false false false [] [14] [] true false false,  -- 218 runnerRef.refCount Scheduler.processCompleted:334 @Scheduler.Run$2
-  mk 181 45 .read [⟨1, true⟩] 1 true false false false [] [14] [] true false false,  -- 219 runnerRef.refCount Scheduler.processCompleted:335 @Scheduler.Run$2
-  mk 182 45 .read [⟨0, false⟩, ⟨1, true⟩] 1 true false false false [] [14] [] true false false,  -- 220 runnerRef.refCount Scheduler.processCompleted:370 @Scheduler.Run$2
-  mk 183 45 .write [⟨1, true⟩] 0 true false false false [] [13] [] true false true,  -- 221 runnerRef.refCount LlmRequest.useLoadedRunner:416 @Scheduler.Run$1
-  mk 184 45 .write [] 0 true true false false [] [13] [] true false false,  -- 222 runnerRef.refCount Scheduler.load:463 @Scheduler.Run$1
-  mk 185 45 .read [⟨1, true⟩] 0 true false false false [] [13] [] true false false,  -- 223 runnerRef.refCount Scheduler.findRunnerToUnload:808 @Scheduler.Run$1
-  mk 186 45 .read [⟨0, false⟩, ⟨1, true⟩] 11 false false false false [] [11] [] true true false,  -- 224 runnerRef.refCount Scheduler.expireRunner:843 @api
-  mk 187 45 .write [⟨1, true⟩] 2 false false false false [] [13] [] true false false,  -- 225 runnerRef.refCount Scheduler.load$1:477 @Scheduler.load$1
-  mk 188 46 .read [⟨0, false⟩] 11 false false false false [] [11] [] true true false,  -- 226 runnerRef.sessionDuration Server.PsHandler:1457 @api
-  mk 189 46 .write [⟨1, true⟩] 0 true false false false [] [13] [] true false false,  -- 227 runnerRef.sessionDuration Scheduler.processPending:293 @Scheduler.Run$1
-  mk 190 46 .read [⟨1, true⟩] 1 true false false false [] [14] [] true false false,  -- 228 runnerRef.sessionDuration Scheduler.processCompleted:336 @Scheduler.Run$2
-  mk 170 46 .read [⟨1, true⟩] 1 true false false false [] [14] [] true false true,  -- 229 runnerRef.sessionDuration Scheduler.processCompleted:357 @Scheduler.Run$2
-  mk 191 46 .write [⟨1, true⟩] 0 true false false false [] [13] [] true false true,  -- 230 runnerRef.sessionDuration LlmRequest.useLoadedRunner:422 @Scheduler.Run$1
-  mk 192 46 .write [] 0 true true false false [] [13] [] true false false,  -- 231 runnerRef.sessionDuration Scheduler.load:458 @Scheduler.Run$1
-  mk 193 46 .read [] 0 true false false false [] [13] [] true false false,  -- 232 runnerRef.sessionDuration ByDurationAndName.Less:695 @Scheduler.Run$1
-  mk 194 46 .write [⟨0, false⟩, ⟨1, true⟩] 11 false false false false [] [11] [] true true false  -- 233 runnerRef.sessionDuration Scheduler.expireRunner:842 @api
+  mk 79 21 .read [] 11 false false false true [] [11] [] true false false,  -- 106 blobDownloadPart.Completed blobDownloadPart.MarshalJSON:80 @api
+  mk 80 21 .write [] 11 false false false true [] [11] [] true false false,  -- 107 blobDownloadPart.Completed blobDownloadPart.UnmarshalJSON:94 @api
+  mk 81 21 .read [] 12 false false false true [] [11] [] true false false,  -- 108 blobDownloadPart.Completed blobDownloadPart.StartsAt:111 @blobDownload.downloadChunk$1
+  mk 81 21 .read [] 14 true false false true [] [11] [] true false false,  -- 109 blobDownloadPart.Completed blobDownloadPart.StartsAt:111 @blobDownload.run$2
+  mk 52 21 .read [] 8 false false false true [] [11] [] true false false,  -- 110 blobDownloadPart.Completed blobDownload.Prepare:142 @Server.CreateHandler$1
+  mk 52 21 .read [] 9 false false false true [] [11] [] true false false,  -- 111 blobDownloadPart.Completed blobDownload.Prepare:142 @Server.PullHandler$1
+  mk 82 21 .read [] 16 false false false true [] [11] [] true false false,  -- 112 blobDownloadPart.Completed blobDownload.run:277 @go:downloadBlob:download.Run
+  mk 83 21 .read [] 12 false false false true [] [11] [] true false false,  -- 113 blobDownloadPart.Completed blobDownload.downloadChunk$1:343 @blobDownload.downloadChunk$1
+  mk 84 21 .write [] 12 false false false true [] [11] [] true false false,  -- 114 blobDownloadPart.Completed blobDownload.downloadChunk$1:350 @blobDownload.downloadChunk$1
+  mk 85 21 .read [] 13 false false false true [] [11] [] true false false,  -- 115 blobDownloadPart.Completed blobDownload.downloadChunk$2:364 @blobDownload.downloadChunk$2
+  mk 86 22 .read [] 11 false false false false [] [11] [] true false false,  -- 116 blobDownloadPart.N blobDownloadPart.MarshalJSON:77 @api
+  mk 87 22 .write [] 11 false true false false [] [11] [] true false false,  -- 117 blobDownloadPart.N blobDownloadPart.UnmarshalJSON:90 @api
+  mk 60 22 .read [] 8 false false false false [] [11] [] true false false,  -- 118 blobDownloadPart.N blobDownloadPart.Name:106 @Server.CreateHandler$1
+  mk 60 22 .read [] 9 false false false false [] [11] [] true false false,  -- 119 blobDownloadPart.N blobDownloadPart.Name:106 @Server.PullHandler$1
+  mk 60 22 .read [] 12 false false false false [] [11] [] true false false,  -- 120 blobDownloadPart.N blobDownloadPart.Name:106 @blobDownload.downloadChunk$1
+  mk 66 22 .write [] 8 false true false false [] [11] [] true false false,  -- 121 blobDownloadPart.N blobDownload.newPart:391 @Server.CreateHandler$1
+  mk 66 22 .write [] 9 false true false false [] [11] [] true false false,  -- 122 blobDownloadPart.N blobDownload.newPart:391 @Server.PullHandler$1
+  mk 58 22 .read [] 14 true false false false [] [11] [] true false false,  -- 123 blobDownloadPart.N blobDownload.run$2:295 @blobDownload.run$2
+  mk 59 22 .read [] 13 false false false false [] [11] [] true false false,  -- 124 blobDownloadPart.N blobDownload.downloadChunk$2:374 @blobDownload.downloadChunk$2
+  mk 88 23 .read [] 11 false false false false [] [11] [] true false false,  -- 125 blobDownloadPart.Offset blobDownloadPart.MarshalJSON:78 @api
+  mk 89 23 .write [] 11 false true false false [] [11] [] true false false,  -- 126 blobDownloadPart.Offset blobDownloadPart.UnmarshalJSON:91 @api
+  mk 81 23 .read [] 12 false false false false [] [11] [] true false false,  -- 127 blobDownloadPart.Offset blobDownloadPart.StartsAt:111 @blobDownload.downloadChunk$1
+  mk 81 23 .read [] 14 true false false false [] [11] [] true false false,  -- 128 blobDownloadPart.Offset blobDownloadPart.StartsAt:111 @blobDownload.run$2
+  mk 90 23 .read [] 12 false false false false [] [11] [] true false false,  -- 129 blobDownloadPart.Offset blobDownloadPart.StopsAt:115 @blobDownload.downloadChunk$1
+  mk 66 23 .write [] 8 false true false false [] [11] [] true false false,  -- 130 blobDownloadPart.Offset blobDownload.newPart:391 @Server.CreateHandler$1
+  mk 66 23 .write [] 9 false true false false [] [11] [] true false false,  -- 131 blobDownloadPart.Offset blobDownload.newPart:391 @Server.PullHandler$1
+  mk 91 24 .read [] 11 false false false false [] [11] [] true false false,  -- 132 blobDownloadPart.Size blobDownloadPart.MarshalJSON:79 @api
+  mk 92 24 .write [] 11 false true false false [] [11] [] true false false,  -- 133 blobDownloadPart.Size blobDownloadPart.UnmarshalJSON:92 @api
+  mk 90 24 .read [] 12 false false false false [] [11] [] true false false,  -- 134 blobDownloadPart.Size blobDownloadPart.StopsAt:115 @blobDownload.downloadChunk$1
+  mk 68 24 .read [] 8 false false false false [] [11] [] true false false,  -- 135 blobDownloadPart.Size blobDownload.Prepare:141 @Server.CreateHandler$1
+  mk 68 24 .read [] 9 false false false false [] [11] [] true false false,  -- 136 blobDownloadPart.Size blobDownload.Prepare:141 @Server.PullHandler$1
+  mk 82 24 .read [] 16 false false false false [] [11] [] true false false,  -- 137 blobDownloadPart.Size blobDownload.run:277 @go:downloadBlob:download.Run
+  mk 66 24 .write [] 8 false true false false [] [11] [] true false false,  -- 138 blobDownloadPart.Size blobDownload.newPart:391 @Server.CreateHandler$1
+  mk 66 24 .write [] 9 false true false false [] [11] [] true false false,  -- 139 blobDownloadPart.Size blobDownload.newPart:391 @Server.PullHandler$1
+  mk 83 24 .read [] 12 false false false false [] [11] [] true false false,  -- 140 blobDownloadPart.Size blobDownload.downloadChunk$1:343 @blobDownload.downloadChunk$1
+  mk 85 24 .read [] 13 false false false false [] [11] [] true false false,  -- 141 blobDownloadPart.Size blobDownload.downloadChunk$2:364 @blobDownload.downloadChunk$2
+  mk 60 25 .read [] 8 false false false false [] [11] [] true false false,  -- 142 blobDownloadPart.blobDownload blobDownloadPart.Name:106 @Server.CreateHandler$1
+  mk 60 25 .read [] 9 false false false false [] [11] [] true false false,  -- 143 blobDownloadPart.blobDownload blobDownloadPart.Name:106 @Server.PullHandler$1
+  mk 60 25 .read [] 12 false false false false [] [11] [] true false false,  -- 144 blobDownloadPart.blobDownload blobDownloadPart.Name:106 @blobDownload.downloadChunk$1
+  mk 51 25 .read [] 11 false false false false [] [11] [] true false false,  -- 145 blobDownloadPart.blobDownload blobDownloadPart.Write:120 @api
+  mk 66 25 .write [] 8 false true false false [] [11] [] true false false,  -- 146 blobDownloadPart.blobDownload blobDownload.newPart:391 @Server.CreateHandler$1
+  mk 66 25 .write [] 9 false true false false [] [11] [] true false false,  -- 147 blobDownloadPart.blobDownload blobDownload.newPart:391 @Server.PullHandler$1
+  mk 93 25 .write [] 8 false true false false [] [11] [] true false false,  -- 148 blobDownloadPart.blobDownload blobDownload.readPart:412 @Server.CreateHandler$1
+  mk 93 25 .write [] 9 false true false false [] [11] [] true false false,  -- 149 blobDownloadPart.blobDownload blobDownload.readPart:412 @Server.PullHandler$1
+  mk 94 26 .write [⟨1, true⟩] 11 false false false false [] [11] [] true false false,  -- 150 blobDownloadPart.lastUpdated blobDownloadPart.Write:122 @api
+  mk 95 26 .read [⟨1, true⟩] 13 false false false false [] [11] [] true false false,  -- 151 blobDownloadPart.lastUpdated blobDownload.downloadChunk$2:369 @blobDownload.downloadChunk$2
+  mk 96 26 .write [⟨1, true⟩] 13 false false false false [] [11] [] true false false,  -- 152 blobDownloadPart.lastUpdated blobDownload.downloadChunk$2:377 @blobDownload.downloadChunk$2
+  mk 97 27 .read [] 10 false false false false [] [11] [] true false false,  -- 153 blobUpload.CancelFunc blobUpload.release:320 @Server.PushHandler$1
+  mk 98 27 .write [] 10 false true false false [22] [11] [] true false false,  -- 154 blobUpload.CancelFunc uploadBlob:398 @Server.PushHandler$1
+  mk 99 28 .write [] 10 false false false true [22] [11] [] true false false,  -- 155 blobUpload.Completed blobUpload.Prepare:87 @Server.PushHandler$1
+  mk 100 28 .read [] 10 false false false true [] [11] [] true false false,  -- 156 blobUpload.Completed blobUpload.Wait:340 @Server.PushHandler$1
+  mk 101 28 .write [] 11 false false false true [] [11] [] true false false,  -- 157 blobUpload.Completed progressWriter.Write:365 @api
+  mk 102 28 .write [] 15 false false false true [] [11, 21, 22] [] true false false,  -- 158 blobUpload.Completed progressWriter.Rollback:370 @blobUpload.Run$1
+  mk 103 29 .read [] 10 false false false false [22] [11] [] true false false,  -- 159 blobUpload.Layer blobUpload.Prepare:54 @Server.PushHandler$1
+  mk 104 29 .read [] 17 true false false false [21] [11, 22] [] true false false,  -- 160 blobUpload.Layer blobUpload.Run:128 @go:uploadBlob:upload.Run
+  mk 105 29 .read [] 17 true false false false [] [11, 22] [] true false false,  -- 161 blobUpload.Layer blobUpload.Run:196 @go:uploadBlob:upload.Run
+  mk 106 29 .read [] 15 false false false false [] [11, 21, 22] [] true false false,  -- 162 blobUpload.Layer blobUpload.uploadPart:276 @blobUpload.Run$1
+  mk 107 29 .read [] 10 false false false false [] [11] [] true false false,  -- 163 blobUpload.Layer blobUpload.Wait:337 @Server.PushHandler$1
+  mk 98 29 .write [] 10 false true false false [22] [11] [] true false false,  -- 164 blobUpload.Layer uploadBlob:398 @Server.PushHandler$1
+  mk 108 29 .read [] 15 false false false false [] [11, 21, 22] [] true false false,  -- 165 blobUpload.Layer blobUpload.Run$1:161 @blobUpload.Run$1
+  mk 109 30 .read [] 10 false false false false [22] [11] [] true false false,  -- 166 blobUpload.Parts blobUpload.Prepare:107 @Server.PushHandler$1
+  mk 109 30 .write [] 10 false false false false [22] [11] [] true false false,  -- 167 blobUpload.Parts blobUpload.Prepare:107 @Server.PushHandler$1
+  mk 110 30 .read [] 17 true false false false [] [11, 22] [] true false false,  -- 168 blobUpload.Parts blobUpload.Run:145 @go:uploadBlob:upload.Run
+  mk 111 31 .write [] 10 false false false false [22] [11] [] true false false,  -- 169 blobUpload.Total blobUpload.Prepare:82 @Server.PushHandler$1
+  mk 99 31 .read [] 10 false false false false [22] [11] [] true false false,  -- 170 blobUpload.Total blobUpload.Prepare:87 @Server.PushHandler$1
+  mk 112 31 .read [] 10 false false false false [] [11] [] true false false,  -- 171 blobUpload.Total blobUpload.Wait:339 @Server.PushHandler$1
+  mk 113 32 .write [] 10 false false false false [22] [11] [] true false false,  -- 172 blobUpload.done blobUpload.Prepare:88 @Server.PushHandler$1
+  mk 114 32 .write [] 17 true false false false [] [11, 22] [] true false false,  -- 173 blobUpload.done blobUpload.Run:220 @go:uploadBlob:upload.Run
+  mk 115 32 .read [] 10 false false false false [] [11] [] true false false,  -- 174 blobUpload.done blobUpload.Wait:343 @Server.PushHandler$1
+  mk 116 33 .write [] 17 true false false false [21] [11, 22] [] true false false,  -- 175 blobUpload.err blobUpload.Run:132 @go:uploadBlob:upload.Run
+  mk 117 33 .write [] 17 true false false false [] [11, 22] [] true false false,  -- 176 blobUpload.err blobUpload.Run:175 @go:uploadBlob:upload.Run
+  mk 115 33 .read [] 10 false false false false [] [11] [] false false false,  -- 177 blobUpload.err blobUpload.Wait:343 @Server.PushHandler$1
+  mk 118 33 .read [] 10 false false false false [] [11] [] true false false,  -- 178 blobUpload.err blobUpload.Wait:344 @Server.PushHandler$1
+  mk 119 34 .write [] 17 true false false false [21] [11, 22] [] true false false,  -- 179 blobUpload.file blobUpload.Run:136 @go:uploadBlob:upload.Run
+  mk 120 34 .read [] 17 true false false false [21] [11, 22] [] true false false,  -- 180 blobUpload.file blobUpload.Run:141 @go:uploadBlob:upload.Run
+  mk 121 34 .read [] 15 false false false false [] [11, 21, 22] [] true false false,  -- 181 blobUpload.file blobUpload.uploadPart:233 @blobUpload.Run$1
+  mk 122 35 .write [] 10 false false false false [22] [11] [] true false false,  -- 182 blobUpload.nextURL blobUpload.Prepare:120 @Server.PushHandler$1
+  mk 123 35 .read [] 10 false false false false [22] [11] [] true false false,  -- 183 blobUpload.nextURL blobUpload.Prepare:121 @Server.PushHandler$1
+  mk 124 35 .read [] 17 true false false false [] [11, 22] [] true false false,  -- 184 blobUpload.nextURL blobUpload.Run:149 @go:uploadBlob:upload.Run
+  mk 125 35 .read [] 15 false false false false [] [11, 21, 22] [] true false false,  -- 185 blobUpload.nextURL blobUpload.uploadPart:259 @blobUpload.Run$1
+  mk 126 36 .write [] 10 false false false true [] [11] [] true false false,  -- 186 blobUpload.references blobUpload.acquire:315 @Server.PushHandler$1
+  mk 127 36 .write [] 10 false false false true [] [11] [] true false false,  -- 187 blobUpload.references blobUpload.release:319 @Server.PushHandler$1
+  mk 128 37 .write [] 15 true false false false [] [11] [] true false false,  -- 188 blobUploadPart.Hash blobUpload.uploadPart:310 @blobUpload.Run$1
+  mk 109 38 .write [] 10 false true false false [] [11] [] true false false,  -- 189 blobUploadPart.N blobUpload.Prepare:107 @Server.PushHandler$1
+  mk 106 38 .read [] 15 true false false false [] [11] [] true false false,  -- 190 blobUploadPart.N blobUpload.uploadPart:276 @blobUpload.Run$1
+  mk 108 38 .read [] 15 true false false false [] [11] [] true false false,  -- 191 blobUploadPart.N blobUpload.Run$1:161 @blobUpload.Run$1
+  mk 109 39 .write [] 10 false true false false [] [11] [] true false false,  -- 192 blobUploadPart.Offset blobUpload.Prepare:107 @Server.PushHandler$1
+  mk 129 39 .read [] 15 true false false false [] [11] [] true false false,  -- 193 blobUploadPart.Offset blobUpload.uploadPart:230 @blobUpload.Run$1
+  mk 109 40 .write [] 10 false true false false [] [11] [] true false false,  -- 194 blobUploadPart.Size blobUpload.Prepare:107 @Server.PushHandler$1
+  mk 130 40 .read [] 10 false false false false [] [11] [] true false false,  -- 195 blobUploadPart.Size blobUpload.Prepare:112 @Server.PushHandler$1
+  mk 131 40 .read [] 15 true false false false [] [11] [] true false false,  -- 196 blobUploadPart.Size blobUpload.uploadPart:226 @blobUpload.Run$1
+  mk 56 41 .write [] 16 false false false true [] [11] [] true false false,  -- 197 global.blobDownloadManager blobDownload.run:216 @go:downloadBlob:download.Run
+  mk 50 41 .write [] 8 false false false true [] [11] [] true false false,  -- 198 global.blobDownloadManager downloadBlob:498 @Server.CreateHandler$1
+  mk 50 41 .write [] 9 false false false true [] [11] [] true false false,  -- 199 global.blobDownloadManager downloadBlob:498 @Server.PullHandler$1
+  mk 104 42 .write [] 17 false false false true [] [11] [] true false false,  -- 200 global.blobUploadManager blobUpload.Run:128 @go:uploadBlob:upload.Run
+  mk 98 42 .write [] 10 false false false true [] [11] [] true false false,  -- 201 global.blobUploadManager uploadBlob:398 @Server.PushHandler$1
+  mk 132 43 .mapRead [] 11 false false false false [] [11] [] true false false,  -- 202 global.intermediateBlobs Server.CreateBlobHandler:1038 @api
+  mk 133 43 .mapDelete [] 11 false false false false [] [11] [] true false false,  -- 203 global.intermediateBlobs Server.CreateBlobHandler:1047 @api
+  mk 134 44 .write [] 0 true true false false [] [13] [] true false false,  -- 204 runnerRef.Options Scheduler.load:457 @Scheduler.Run$1
+  mk 135 44 .write [⟨0, false⟩, ⟨2, true⟩] 1 true false false false [] [14] [1] true false false,  -- 205 runnerRef.Options runnerRef.unload:591 @Scheduler.Run$2
+  mk 136 44 .read [⟨2, true⟩] 0 true false false false [] [13] [] false false false,  -- 206 runnerRef.Options runnerRef.needsReload:605 @Scheduler.Run$1
+  mk 137 44 .read [⟨2, true⟩] 0 true false false false [] [13] [] true false true,  -- 207 runnerRef.Options runnerRef.needsReload:610 @Scheduler.Run$1
+  mk 138 45 .read [⟨0, false⟩] 11 false false false false [] [11] [] true true false,  -- 208 runnerRef.estimatedTotal Server.PsHandler:1446 @api
+  mk 139 45 .write [] 0 true true false false [] [13] [] true false false,  -- 209 runnerRef.estimatedTotal Scheduler.load:461 @Scheduler.Run$1
+  mk 140 46 .read [⟨0, false⟩] 11 false false false false [] [11] [] true true false,  -- 210 runnerRef.estimatedVRAM Server.PsHandler:1447 @api
+  mk 141 46 .write [] 0 true true false false [] [13] [] true false false,  -- 211 runnerRef.estimatedVRAM Scheduler.load:460 @Scheduler.Run$1
+  mk 142 46 .read [] 19 false false false false [] [14] [] true false false,  -- 212 runnerRef.estimatedVRAM runnerRef.waitForVRAMRecovery$1:683 @runnerRef.waitForVRAMRecovery$1
+  mk 143 47 .read [⟨2, true⟩] 0 true false false false [] [13] [] false false false,  -- 213 runnerRef.expireTimer Scheduler.processPending:289 @Scheduler.Run$1
+  mk 144 47 .read [⟨2, true⟩] 0 true false false false [] [13] [] true false true,  -- 214 runnerRef.expireTimer Scheduler.processPending:290 @Scheduler.Run$1
+  mk 145 47 .write [⟨2, true⟩] 0 true false false false [] [13] [] true false true,  -- 215 runnerRef.expireTimer Scheduler.processPending:291 @Scheduler.Run$1
+  mk 146 47 .read [⟨2, true⟩] 1 true false false false [] [14] [] false false false,  -- 216 runnerRef.expireTimer Scheduler.processCompleted:338 @Scheduler.Run$2
+  mk 147 47 .read [⟨2, true⟩] 1 true false false false [] [14] [] true false true,  -- 217 runnerRef.expireTimer Scheduler.processCompleted:339 @Scheduler.Run$2
+  mk 148 47 .write [⟨2, true⟩] 1 true false false false [] [14] [] true false true,  -- 218 runnerRef.expireTimer Scheduler.processCompleted:340 @Scheduler.Run$2
+  mk 149 47 .write [⟨2, true⟩] 1 true false false false [] [14] [] true false false,  -- 219 runnerRef.expireTimer Scheduler.processCompleted:345 @Scheduler.Run$2
+  mk 150 47 .read [⟨2, true⟩] 0 true false false false [] [13] [] false false true,  -- 220 runnerRef.expireTimer LlmRequest.useLoadedRunner:417 @Scheduler.Run$1
+  mk 151 47 .read [⟨2, true⟩] 0 true false false false [] [13] [] true false true,  -- 221 runnerRef.expireTimer LlmRequest.useLoadedRunner:418 @Scheduler.Run$1
+  mk 152 47 .write [⟨2, true⟩] 0 true false false false [] [13] [] true false true,  -- 222 runnerRef.expireTimer LlmRequest.useLoadedRunner:419 @Scheduler.Run$1
+  mk 153 47 .read [⟨0, false⟩, ⟨2, true⟩] 1 true false false false [] [14] [1] false false false,  -- 223 runnerRef.expireTimer runnerRef.unload:582 @Scheduler.Run$2
+  mk 154 47 .read [⟨0, false⟩, ⟨2, true⟩] 1 true false false false [] [14] [1] true false true,  -- 224 runnerRef.expireTimer runnerRef.unload:583 @Scheduler.Run$2
+  mk 155 47 .write [⟨0, false⟩, ⟨2, true⟩] 1 true false false false [] [14] [1] true false true,  -- 225 runnerRef.expireTimer runnerRef.unload:584 @Scheduler.Run$2
+  mk 156 47 .read [⟨0, false⟩, ⟨2, true⟩] 11 false false false false [] [11] [] false true false,  -- 226 runnerRef.expireTimer Scheduler.expireRunner:842 @api
+  mk 157 47 .read [⟨0, false⟩, ⟨2, true⟩] 11 false false false false [] [11] [] true true true,  -- 227 runnerRef.expireTimer Scheduler.expireRunner:843 @api
+  mk 158 47 .write [⟨0, false⟩, ⟨2, true⟩] 11 false false false false [] [11] [] true true true,  -- 228 runnerRef.expireTimer Scheduler.expireRunner:844 @api
+  mk 159 47 .read [⟨2, true⟩] 4 false false false false [] [14] [] false false false,  -- 229 runnerRef.expireTimer Scheduler.processCompleted$1:349 @Scheduler.processCompleted$1
+  mk 160 47 .read [⟨2, true⟩] 4 false false false false [] [14] [] true false true,  -- 230 runnerRef.expireTimer Scheduler.processCompleted$1:350 @Scheduler.processCompleted$1
+  mk 161 47 .write [⟨2, true⟩] 4 false false false false [] [14] [] true false true,  -- 231 runnerRef.expireTimer Scheduler.processCompleted$1:351 @Scheduler.processCompleted$1
+  mk 162 48 .read [⟨0, false⟩] 11 false false false false [] [11] [] true true false,  -- 232 runnerRef.expiresAt Server.PsHandler:1450 @api
+  mk 163 48 .write [⟨2, true⟩] 1 true false false false [] [14] [] true false false,  -- 233 runnerRef.expiresAt Scheduler.processCompleted:355 @Scheduler.Run$2
+  mk 164 48 .write [⟨2, true⟩] 1 true false false false [] [14] [] true false true,  -- 234 runnerRef.expiresAt Scheduler.processCompleted:359 @Scheduler.Run$2
+  mk 165 48 .write [⟨0, false⟩, ⟨2, true⟩] 11 false false false false [] [11] [] true true false,  -- 235 runnerRef.expiresAt Scheduler.expireRunner:841 @api
+  mk 166 49 .write [] 0 true true false false [] [13] [] true false false,  -- 236 runnerRef.gpus Scheduler.load:459 @Scheduler.Run$1
+  mk 167 49 .read [⟨0, false⟩] 0 true false false false [] [13] [] true true false,  -- 237 runnerRef.gpus Scheduler.filterGPUsWithoutLoadingModels:543 @Scheduler.Run$1
+  mk 168 49 .write [⟨0, false⟩, ⟨2, true⟩] 1 true false false false [] [14] [1] true false false,  -- 238 runnerRef.gpus runnerRef.unload:592 @Scheduler.Run$2
+  mk 169 49 .read [⟨0, false⟩, ⟨2, true⟩] 1 true false false false [] [14] [] true false false,  -- 239 runnerRef.gpus runnerRef.waitForVRAMRecovery:649 @Scheduler.Run$2
+  mk 170 50 .read [] 11 false false false false [] [11] [1] true false false,  -- 240 runnerRef.llama Server.scheduleRunner:117 @api
+  mk 171 50 .read [⟨2, true⟩] 0 true false false false [] [13] [] false false false,  -- 241 runnerRef.llama LlmRequest.useLoadedRunner:411 @Scheduler.Run$1
+  mk 172 50 .write [] 0 true true false false [] [13] [] true false false,  -- 242 runnerRef.llama Scheduler.load:456 @Scheduler.Run$1
+  mk 173 50 .read [⟨0, false⟩, ⟨2, true⟩] 0 true false false false [] [13] [] false true false,  -- 243 runnerRef.llama Scheduler.updateFreeSpace:503 @Scheduler.Run$1
+  mk 174 50 .read [⟨0, false⟩, ⟨2, true⟩] 0 true false false false [] [13] [] true true true,  -- 244 runnerRef.llama Scheduler.updateFreeSpace:505 @Scheduler.Run$1
+  mk 175 50 .read [⟨0, false⟩, ⟨2, true⟩] 1 true false false false [] [14] [1] false false false,  -- 245 runnerRef.llama runnerRef.unload:586 @Scheduler.Run$2
+  mk 176 50 .read [⟨0, false⟩, ⟨2, true⟩] 1 true false false false [] [14] [1] true false true,  -- 246 runnerRef.llama runnerRef.unload:587 @Scheduler.Run$2
+  mk 177 50 .write [⟨0, false⟩, ⟨2, true⟩] 1 true false false false [] [14] [1] true false false,  -- 247 runnerRef.llama runnerRef.unload:590 @Scheduler.Run$2
+  mk 178 50 .read [⟨2, true⟩] 0 true false false false [] [13] [] true false true,  -- 248 runnerRef.llama runnerRef.needsReload:629 @Scheduler.Run$1
+  mk 179 50 .read [⟨0, false⟩] 7 true false false false [] [10] [] false true false,  -- 249 runnerRef.llama Scheduler.unloadAllRunners:828 @Serve$2
+  mk 180 50 .read [⟨0, false⟩] 7 true false false false [] [10] [] true true false,  -- 250 runnerRef.llama Scheduler.unloadAllRunners:830 @Serve$2
+  mk 181 51 .write [] 0 true true false false [] [13] [] true false false,  -- 251 runnerRef.loading Scheduler.load:462 @Scheduler.Run$1
+  mk 182 51 .read [⟨0, false⟩] 0 true false false false [] [13] [] true true false,  -- 252 runnerRef.loading Scheduler.filterGPUsWithoutLoadingModels:542 @Scheduler.Run$1
+  mk 183 51 .read [⟨2, true⟩] 0 true false false false [] [13] [] true false false,  -- 253 runnerRef.loading runnerRef.needsReload:601 @Scheduler.Run$1
+  mk 184 51 .write [⟨2, true⟩] 2 false false false false [] [13] [] true false false,  -- 254 runnerRef.loading Scheduler.load$1:484 @Scheduler.load$1
+  mk 185 52 .read [⟨0, false⟩] 11 false false false false [] [11] [] true true false,  -- 255 runnerRef.model Server.PsHandler:1434 @api
+  mk 186 52 .write [] 0 true true false false [] [13] [] true false false,  -- 256 runnerRef.model Scheduler.load:454 @Scheduler.Run$1
+  mk 187 52 .write [⟨0, false⟩, ⟨2, true⟩] 1 true false false false [] [14] [1] true false false,  -- 257 runnerRef.model runnerRef.unload:589 @Scheduler.Run$2
+  mk 188 52 .read [⟨2, true⟩] 0 true false false false [] [13] [] true false true,  -- 258 runnerRef.model runnerRef.needsReload:626 @Scheduler.Run$1
+  mk 189 53 .read [⟨2, true⟩] 0 true false false false [] [13] [] true false false,  -- 259 runnerRef.modelPath Scheduler.processPending:288 @Scheduler.Run$1
+  mk 190 53 .read [] 0 true false false false [] [13] [] true false false,  -- 260 runnerRef.modelPath Scheduler.processPending:301 @Scheduler.Run$1
+  mk 191 53 .read [⟨2, true⟩] 1 true false false false [] [14] [] true false false,  -- 261 runnerRef.modelPath Scheduler.processCompleted:337 @Scheduler.Run$2
+  mk 192 53 .read [⟨2, true⟩] 1 true false false false [] [14] [] true false true,  -- 262 runnerRef.modelPath Scheduler.processCompleted:357 @Scheduler.Run$2
+  mk 193 53 .read [] 1 true false false false [] [14] [] true false false,  -- 263 runnerRef.modelPath Scheduler.processCompleted:365 @Scheduler.Run$2
+  mk 194 53 .read [⟨0, false⟩, ⟨2, true⟩] 1 true false false false [] [14] [] true false false,  -- 264 runnerRef.modelPath Scheduler.processCompleted:371 @Scheduler.Run$2
+  mk 195 53 .write [] 0 true true false false [] [13] [] true false false,  -- 265 runnerRef.modelPath Scheduler.load:455 @Scheduler.Run$1
+  mk 167 53 .read [⟨0, false⟩] 0 true false false false [] [13] [] true true false,  -- 266 runnerRef.modelPath Scheduler.filterGPUsWithoutLoadingModels:543 @Scheduler.Run$1
+  mk 196 53 .read [] 0 true false false false [] [13] [] true false false,  -- 267 runnerRef.modelPath ByDurationAndName.Less:705 @Scheduler.Run$1
+  mk 197 53 .read [] 4 false false false false [] [14] [] true false false,  -- 268 runnerRef.modelPath Scheduler.processCompleted$1:346 @Scheduler.processCompleted$1
+  mk 198 53 .read [⟨2, true⟩] 2 false false false false [] [13] [] true false false,  -- 269 runnerRef.modelPath Scheduler.load$1:479 @Scheduler.load$1
+  mk 199 53 .read [] 19 false false false false [] [14] [] true false false,  -- 270 runnerRef.modelPath runnerRef.waitForVRAMRecovery$1:671 @runnerRef.waitForVRAMRecovery$1
+  mk 200 54 .write [] 0 true true false false [] [13] [] true false false,  -- 271 runnerRef.numParallel Scheduler.load:465 @Scheduler.Run$1
+  mk 201 54 .read [⟨2, true⟩] 0 true false false false [] [13] [] true false true,  -- 272 runnerRef.numParallel runnerRef.needsReload:618 @Scheduler.Run$1
+  mk 189 55 .read [⟨2, true⟩] 0 true false false false [] [13] [] true false false,  -- 273 runnerRef.refCount Scheduler.processPending:288 @Scheduler.Run$1
+  mk 202 55 .write [⟨2, true⟩] 1 true false false false [] [14] [] true false false,  -- 274 runnerRef.refCount Scheduler.processCompleted:334 @Scheduler.Run$2
+  mk 203 55 .read [⟨2, true⟩] 1 true false false false [] [14] [] true false false,  -- 275 runnerRef.refCount Scheduler.processCompleted:335 @Scheduler.Run$2
+  mk 204 55 .read [⟨0, false⟩, ⟨2, true⟩] 1 true false false false [] [14] [] true false false,  -- 276 runnerRef.refCount Scheduler.processCompleted:370 @Scheduler.Run$2
+  mk 205 55 .write [⟨2, true⟩] 0 true false false false [] [13] [] true false true,  -- 277 runnerRef.refCount LlmRequest.useLoadedRunner:416 @Scheduler.Run$1
+  mk 206 55 .write [] 0 true true false false [] [13] [] true false false,  -- 278 runnerRef.refCount Scheduler.load:463 @Scheduler.Run$1
+  mk 207 55 .read [⟨2, true⟩] 0 true false false false [] [13] [] true false false,  -- 279 runnerRef.refCount Scheduler.findRunnerToUnload:812 @Scheduler.Run$1
+  mk 208 55 .read [⟨0, false⟩, ⟨2, true⟩] 11 false false false false [] [11] [] true true false,  -- 280 runnerRef.refCount Scheduler.expireRunner:847 @api
+  mk 209 55 .write [⟨2, true⟩] 2 false false false false [] [13] [] true false false,  -- 281 runnerRef.refCount Scheduler.load$1:477 @Scheduler.load$1
+  mk 210 56 .read [⟨0, false⟩] 11 false false false false [] [11] [] true true false,  -- 282 runnerRef.sessionDuration Server.PsHandler:1457 @api
+  mk 211 56 .write [⟨2, true⟩] 0 true false false false [] [13] [] true false false,  -- 283 runnerRef.sessionDuration Scheduler.processPending:293 @Scheduler.Run$1
+  mk 212 56 .read [⟨2, true⟩] 1 true false false false [] [14] [] true false false,  -- 284 runnerRef.sessionDuration Scheduler.processCompleted:336 @Scheduler.Run$2
+  mk 192 56 .read [⟨2, true⟩] 1 true false false false [] [14] [] true false true,  -- 285 runnerRef.sessionDuration Scheduler.processCompleted:357 @Scheduler.Run$2
+  mk 213 56 .write [⟨2, true⟩] 0 true false false false [] [13] [] true false true,  -- 286 runnerRef.sessionDuration LlmRequest.useLoadedRunner:422 @Scheduler.Run$1
+  mk 214 56 .write [] 0 true true false false [] [13] [] true false false,  -- 287 runnerRef.sessionDuration Scheduler.load:458 @Scheduler.Run$1
+  mk 215 56 .read [] 0 true false false false [] [13] [] true false false,  -- 288 runnerRef.sessionDuration ByDurationAndName.Less:699 @Scheduler.Run$1
+  mk 216 56 .write [⟨0, false⟩, ⟨2, true⟩] 11 false false false false [] [11] [] true true false  -- 289 runnerRef.sessionDuration Scheduler.expireRunner:846 @api
 ]
 
 /-- (class, site, site) of the pairs the translator's own implementation of the rule rejects -/
-def expectedViolations : List (Nat × Nat × Nat) := [(17, 68, 71), (17, 68, 71), (17, 68, 71), (17, 68, 71), (18, 72, 74), (18, 72, 74), (18, 72, 74), (18, 72, 74), (25, 93, 94), (26, 95, 97), (26, 96, 97), (27, 98, 97), (27, 98, 100), (27, 99, 97), (27, 99, 100), (38, 140, 141), (38, 140, 142), (41, 160, 162), (46, 188, 189), (46, 188, 191), (46, 193, 194)]
+def expectedViolations : List (Nat × Nat × Nat) := [(17, 68, 71), (17, 68, 71), (17, 68, 71), (17, 68, 71), (18, 72, 74), (18, 72, 74), (18, 72, 74), (18, 72, 74), (31, 111, 112), (32, 113, 115), (32, 114, 115), (33, 116, 115), (33, 116, 118), (33, 117, 115), (33, 117, 118), (48, 162, 163), (48, 162, 164), (51, 182, 184), (56, 210, 211), (56, 210, 213), (56, 215, 216)]
 
 /-- classes a teardown function (runnerRef.unload) sets to nil -/
-def clearedClassIds : List Nat := [34, 37, 40, 42]
+def clearedClassIds : List Nat := [44, 47, 50, 52]
 def registryClassId : Nat := 5
 def registryLockRef : LockRef := ⟨0, false⟩
-def objectLockRef : LockRef := ⟨1, true⟩
+def objectLockRef : LockRef := ⟨2, true⟩
 /-- (class, site) of the stale reads the translator's own implementation of the rule found -/
 def expectedStale : List (Nat × Nat) := []
-def badClassIds : List Nat := [17, 18, 25, 26, 27, 38, 41, 46]
-def goodClassIds : List Nat := [0, 1, 2, 3, 4, 5, 6, 7, 8, 9, 10, 11, 12, 13, 14, 15, 16, 19, 20, 21, 22, 23, 24, 28, 29, 30, 31, 32, 33, 34, 35, 36, 37, 39, 40, 42, 43, 44, 45]
+def badClassIds : List Nat := [17, 18, 31, 32, 33, 48, 51, 56]
+def goodClassIds : List Nat := [0, 1, 2, 3, 4, 5, 6, 7, 8, 9, 10, 11, 12, 13, 14, 15, 16, 19, 20, 21, 22, 23, 24, 25, 26, 27, 28, 29, 30, 34, 35, 36, 37, 38, 39, 40, 41, 42, 43, 44, 45, 46, 47, 49, 50, 52, 53, 54, 55]
 def badClassNames : List String := ["blobDownload.Total", "blobDownload.done", "blobUpload.Total", "blobUpload.done", "blobUpload.err", "runnerRef.expiresAt", "runnerRef.loading", "runnerRef.sessionDuration"]
 
 end OllamaVerif.Generated.C15
